@@ -137,8 +137,9 @@ class ContainerSpace(Subspace):
     shard = 12
 
     def __init__(self, name, G, lo, hi, vdtype="f8", keykind="float", tz=None, seed=0, joint=False,
-                 key_conts=KEY_CONTS, val_conts=VAL_CONTS):
+                 key_conts=KEY_CONTS, val_conts=VAL_CONTS, arrow_int=None):
         self.name, self.vdtype, self.keykind, self.tz, self.seed = name, vdtype, keykind, tz, seed
+        self.arrow_int = arrow_int
         self.joint, self.key_conts, self.val_conts = joint, key_conts, val_conts
         alpha = row_alphabet(G, 1, [gbh.key_can_null(keykind)], C.can_null(vdtype), False)
         self.ws = W.WordSpace(alpha, lo, hi)
@@ -150,7 +151,8 @@ class ContainerSpace(Subspace):
     def case(self, i):
         return dict(w=[[list(r[0])] + list(r[1:]) for r in self.ws.at(i)], vdtype=self.vdtype,
                     keykind=self.keykind, tz=self.tz, seed=self.seed, joint=self.joint,
-                    key_conts=list(self.key_conts), val_conts=list(self.val_conts))
+                    key_conts=list(self.key_conts), val_conts=list(self.val_conts),
+                    arrow_int=self.arrow_int)
 
     def run(self, case):
         from groupby_lib import GroupBy
@@ -168,6 +170,29 @@ class ContainerSpace(Subspace):
         karr = np.asarray(d.keys[0])
         inputs = set(v for v in d.py if v is not None)
         in_family = dtype_family(str(d.V.dtype) if not tz else f"datetime64[{np.datetime_data(d.V.dtype)[0]}, {tz}]")
+
+        arrow_int = case.get("arrow_int")
+
+        def val_container(cont, comp):
+            if arrow_int and cont in ("pa_array", "pa_chunked", "pd_arrow", "polars"):
+                # the same numbers as Arrow *integers* with Arrow nulls (NumPy has to use float/NaN)
+                import pyarrow as pa
+                ints = [None if v is None else int(v) for v in py_list(d.V)]
+                typ = getattr(pa, arrow_int)()
+                if cont == "pa_chunked":
+                    parts, a0 = [], 0
+                    for c in comp:
+                        parts.append(pa.array(ints[a0:a0 + c], type=typ))
+                        a0 += c
+                    return pa.chunked_array(parts, type=typ)
+                a = pa.array(ints, type=typ)
+                if cont == "pa_array":
+                    return a
+                if cont == "pd_arrow":
+                    return pd.Series(a, dtype=pd.ArrowDtype(typ))
+                import polars as pl
+                return pl.Series("", a)
+            return to_container(d.V, cont, comp, tz=tz)
 
         def run_op(name, K, V):
             op = O.OPS[name]
@@ -215,7 +240,7 @@ class ContainerSpace(Subspace):
                 if spec[0] == "k":
                     K, V = to_container(karr, spec[1], spec[2], name=None), Vbase
                 elif spec[0] == "v":
-                    K, V = karr, to_container(d.V, spec[1], spec[2], tz=tz)
+                    K, V = karr, val_container(spec[1], spec[2])
                 elif spec[0] == "kv":
                     K, V = to_container(karr, "pa_chunked", spec[1]), to_container(d.V, "pa_chunked", spec[2], tz=tz)
                 else:
@@ -249,7 +274,7 @@ class ContainerSpace(Subspace):
                 if bad:
                     res.fail("values", f"{tag}: {bad} (vs NumPy containers)")
                     continue
-                if spec[0] in ("v", "kv", "kv2"):
+                if spec[0] in ("v", "kv", "kv2") and not arrow_int:
                     self._exactness(res, tag, name, o, inputs, in_family, d, tz)
         seams.reset()
         return res
@@ -304,4 +329,8 @@ def subspaces(tier, seed):
                     key_conts=(), val_conts=("pd_series", "pd_arrow", "polars", "pa_array"), seed=seed))
     for kk in ("int", "str_obj", "dt_ns"):
         sp.append(S(f"{kk}-keys-n1to{hv}", 2, 1, hv, keykind=kk, val_conts=(), seed=seed))
+    # Arrow integers with Arrow nulls (nullable ints exist only in Arrow-backed containers)
+    for at in ("int64", "int32", "uint8"):
+        sp.append(S(f"arrow-nullable-{at}-values-n1to3", 2, 1, 3, key_conts=(),
+                    val_conts=("pa_array", "pa_chunked", "pd_arrow", "polars"), arrow_int=at, seed=seed))
     return sp
